@@ -76,6 +76,10 @@ func genC16MessageRaw(r *Rand) []byte {
 	case 0, 1:
 		return join("REMOTE", r.Intn(10))
 	case 2:
+		if r.Bool(0.3) {
+			// a well-formed record of an empty, blank or separator-only line
+			return []byte(fmt.Sprintf("REMOTE|srv|100|%d|f.log|%s\n", r.Intn(100), PickOf(r, "", "", " ", "\t", "|", "||", "\r")))
+		}
 		return []byte(fmt.Sprintf("REMOTE|srv|100|%d|f.log|line %d of the file\n", r.Intn(100), r.Intn(100)))
 	case 3:
 		return join(PickOf(r, "SERVER", "CLIENT"), r.Intn(5))
